@@ -13,8 +13,10 @@ package main
 
 import (
 	"fmt"
+	"os"
 	"runtime"
 	"strings"
+	"syscall"
 
 	"pipelined.dev/signal"
 )
@@ -58,6 +60,10 @@ func genHugeConv(g *Kern, r *Rng, tier string) {
 
 func (g *Kern) hugeScreenOpt(sk, dk Kind, specials []uint64, force bool) {
 	hugeCounter++
+	if !memRoom(1 << 30) {
+		g.st.branch("huge-screen-skipped-for-lack-of-memory")
+		return
+	}
 	lengths := hugeLengths
 	if force {
 		lengths = hugeLengths[:1]
@@ -132,6 +138,10 @@ func (g *Kern) goref(props, clause string, bad string, label string) {
 
 // genHugeRW: the four readers / writers on 2^23+6 .. 2^24+6 samples (C01)
 func genHugeRW(g *Kern, r *Rng, tier string) {
+	if !memRoom(1 << 30) {
+		g.st.branch("huge-screen-skipped-for-lack-of-memory")
+		return
+	}
 	type cfg struct{ frames, ch, procs int }
 	cfgs := []cfg{{1<<22 + 3, 2, 4}, {1<<23 + 1, 1, 3}, {1<<23 + 3, 2, 0}}
 	if tier != "thorough" {
@@ -209,6 +219,10 @@ func genHugeRW(g *Kern, r *Rng, tier string) {
 // genHugeAppend: in-place appends of 9..12 Mi samples (int8) whose source is a window of the destination's own storage,
 // against `append` on a plain []int8 with the same aliasing (C03, C12)
 func genHugeAppend(g *Kern, r *Rng, tier string) {
+	if !memRoom(1 << 30) {
+		g.st.branch("huge-screen-skipped-for-lack-of-memory")
+		return
+	}
 	type sc struct{ total, L, a, n, procs int }
 	list := []sc{
 		{24 << 20, 100, 50, 9<<20 + 77, 0},          // source starts inside the destination, 9 Mi long
@@ -257,6 +271,10 @@ func genHugeAppend(g *Kern, r *Rng, tier string) {
 
 // genHugePool: a pool of 4 Mi+6 .. 16 Mi samples: fill the whole capacity, put, get: zero everywhere (C10)
 func genHugePool(g *Kern, r *Rng, tier string) {
+	if !memRoom(1 << 30) {
+		g.st.branch("huge-screen-skipped-for-lack-of-memory")
+		return
+	}
 	type cfg struct{ ch, K, procs int }
 	cfgs := []cfg{{2, 1<<21 + 3, 0}, {1, 1<<23 + 5, 3}}
 	if tier == "thorough" {
@@ -297,6 +315,10 @@ func genHugePool(g *Kern, r *Rng, tier string) {
 
 // genHugeLength: Len / Length / Capacity around 2^24 and 2^25 samples while samples are appended one by one (C04)
 func genHugeLength(g *Kern, r *Rng, tier string) {
+	if !memRoom(1 << 30) {
+		g.st.branch("huge-screen-skipped-for-lack-of-memory")
+		return
+	}
 	for _, c := range []struct{ ch, frames int }{{1, 1 << 24}, {2, 1 << 24}, {3, 1<<24 + 1}, {1, 1 << 25}} {
 		if tier != "thorough" && c.frames > 1<<24+1 {
 			continue
@@ -379,8 +401,36 @@ func genC14Wide(g *Kern, r *Rng, tier string) {
 // genGiant: a buffer of 2^31+9 samples (int8; the pages are never touched, so it costs address space only): lengths,
 // capacities and counts beyond 32 bits, a window near its end, and conversions between it and an 8-sample buffer
 // (C04, C05, C07, C02)
+// memRoom: the address space and the free memory of this process allow an allocation of `need` bytes with a wide
+// margin (an allocation the runtime cannot satisfy is a fatal error, not a panic: the screen is skipped instead)
+func memRoom(need uint64) bool {
+	var rl syscall.Rlimit
+	if syscall.Getrlimit(syscall.RLIMIT_AS, &rl) == nil && rl.Cur != ^uint64(0) && rl.Cur < 4*need {
+		return false
+	}
+	data, err := os.ReadFile("/proc/meminfo")
+	if err != nil {
+		return false
+	}
+	for _, line := range strings.Split(string(data), "\n") {
+		if strings.HasPrefix(line, "MemAvailable:") {
+			f := strings.Fields(line)
+			if len(f) >= 2 {
+				var kb uint64
+				fmt.Sscan(f[1], &kb)
+				return kb*1024 >= 3*need
+			}
+		}
+	}
+	return false
+}
+
 func genGiant(g *Kern, props string) {
 	n := 1<<31 + 9
+	if !memRoom(uint64(n) * 2) {
+		g.st.branch("giant-buffer-skipped-for-lack-of-memory")
+		return
+	}
 	bad := ""
 	p := try(func() {
 		big := signal.Alloc[int8](signal.Allocator{Channels: 1, Length: n, Capacity: n + 2})
